@@ -9,7 +9,7 @@
 (* would have accepted is drift.  The generic block formulas of Exec.tla   *)
 (* (C07 / C08 / C14) are evaluated on the same events.                     *)
 (***************************************************************************)
-EXTENDS Interchain, Surface, Json, IOUtils
+EXTENDS Interchain, Surface, Lifecycle, Json, IOUtils
 
 TraceFile == IF "TRACE" \in DOMAIN IOEnv THEN IOEnv.TRACE ELSE "trace.ndjson"
 Tr == ndJsonDeserialize(TraceFile)
@@ -18,10 +18,14 @@ EX == INSTANCE Exec     \* the generic block formulas (C07 / C08 / C14) are eval
 VARIABLES l, tname, g, env, pending, viol, drift
 tvars == <<l, tname, g, env, pending, viol, drift>>
 
-Env0 == [svc |-> <<>>, h |-> 0, bxh |-> "", unordered |-> {}, admins |-> {}, relay |-> <<>>, rule |-> <<>>]
+Env0 == [svc |-> <<>>, h |-> 0, bxh |-> "", unordered |-> {}, admins |-> {}, relay |-> <<>>, rule |-> <<>>, chain |-> <<>>]
 Init == l = 0 /\ tname = "" /\ g = GInit /\ env = Env0 /\ pending = FALSE /\ viol = {} /\ drift = {} /\ TLCSet(1, 0)
 
 SvcMap(list) == [s \in {x.svc : x \in ToSet(list)} |-> (CHOOSE x \in ToSet(list) : x.svc = s).st]
+\* governance status of every registered appchain and relay chain
+ChainMap(chains, relay) == [c \in {x.chain : x \in ToSet(chains)} \cup {x.bxh : x \in ToSet(relay)} |->
+                             IF \E x \in ToSet(chains) : x.chain = c THEN (CHOOSE x \in ToSet(chains) : x.chain = c).st
+                             ELSE (CHOOSE x \in ToSet(relay) : x.bxh = c).st]
 \* the validation rule bound (status available) to every registered appchain, "" if none
 RuleMap(list) == [c \in {x.chain : x \in ToSet(list)} |->
                     LET x == CHOOSE y \in ToSet(list) : y.chain = c IN [bound |-> x.bound, unbinding |-> x.unbinding, cert |-> x.cert]]
@@ -177,7 +181,10 @@ BlockStep(e) ==
                 \cup (IF Len(e.txs) > 0 /\ (\A i \in 1..Len(e.txs) : e.txs[i].k = "invoke" /\ e.txs[i].cls = "surface" /\ e.txs[i].role # "govadmin")
                           /\ (CtrViol(g2, e.counters, en.unordered) \cup StatusViol(r.g, g2, e.h, e.status)) # {}
                       THEN {<<"C17_NoForeignDelete", {[c |-> e.txs[i].c, m |-> e.txs[i].m] : i \in 1..Len(e.txs)}>>} ELSE {})
-                \cup DelivViol(en, e.txs, e.counter, r.nt) \cup GroupViol(g2, e.groups) \cup ChainFreezeViol(e),
+                \cup DelivViol(en, e.txs, e.counter, r.nt) \cup GroupViol(g2, e.groups) \cup ChainFreezeViol(e)
+                \cup (LET ngov == Cardinality({i \in 1..Len(e.txs) : e.txs[i].k \in {"gov", "vote", "withdraw", "invoke"}}) IN
+                      LifecycleViol("service", ServiceEdges, env.svc, SvcMap(e.svc), ngov)
+                      \cup LifecycleViol("appchain", AppchainEdges, env.chain, ChainMap(e.chains, e.relay), ngov)),
       d |-> r.d, src |-> srcChainOf, pre |-> r.g]
 
 VARIABLE chainOfId   \* id -> source chain (for timeout metadata)
@@ -189,7 +196,7 @@ Step(e) ==
   /\ CASE e.ev = "Init" ->
             /\ g' = GInit /\ pending' = FALSE /\ chainOfId' = <<>>
             /\ env' = [svc |-> SvcMap(e.svc), h |-> e.h, bxh |-> e.bxh, unordered |-> {e.bxh \o ":" \o u : u \in ToSet(e.unordered)},
-                       admins |-> ToSet(e.admins), relay |-> RelayMap(e.relay), rule |-> RuleMap(e.rules)]
+                       admins |-> ToSet(e.admins), relay |-> RelayMap(e.relay), rule |-> RuleMap(e.rules), chain |-> ChainMap(e.chains, e.relay)]
             /\ viol' = viol \cup (IF e.setupEqual THEN {} ELSE {<<nm, l + 1, "C01_SetupDiverged", 0>>})
             /\ drift' = drift
        [] e.ev = "Submit" -> /\ pending' = TRUE /\ UNCHANGED <<g, env, viol, drift, chainOfId>>
@@ -199,7 +206,7 @@ Step(e) ==
                 tv == TmetaViol(g, e.h, e.tmeta, cmap)
                 tv2 == TmetaViol(b.pre, e.h, e.tmeta, cmap)
             IN /\ g' = b.g /\ pending' = FALSE /\ chainOfId' = cmap
-               /\ env' = [env EXCEPT !.svc = SvcMap(e.svc), !.h = e.h, !.relay = RelayMap(e.relay), !.rule = RuleMap(e.rules)]
+               /\ env' = [env EXCEPT !.svc = SvcMap(e.svc), !.h = e.h, !.relay = RelayMap(e.relay), !.rule = RuleMap(e.rules), !.chain = ChainMap(e.chains, e.relay)]
                /\ viol' = viol \cup {<<nm, l + 1, x[1], x[2]>> : x \in b.v \cup tv2 \cup EX!GenericBlockViol(e, env.admins)}
                /\ drift' = drift \cup {<<nm, l + 1, x>> : x \in b.d}
        [] e.ev \in {"ExecError", "Crashed"} ->
